@@ -290,6 +290,7 @@ class Env(S.Context):
             out[rn] = entries[0][1]
         # the renames of a class reached through paths with different mappers depend on the path: not modelled per class
         self.path_dependent = {rn for rn, entries in cand.items() if len({tuple(e[1]) for e in entries}) > 1}
+        self.rename_cands = {rn: [e[1] for e in entries] for rn, entries in cand.items()}
         return out
 
     def wrapper_form(self, name):
@@ -964,16 +965,26 @@ def rep_none_required(doc, ctx):
 
 
 def rep_nested_mapper(doc, ctx):
+    """The serializer applies the parent's mapper to nested class instances; the definition has the class's own keys.
+    A class reached through several paths (with / without a '<field>._mapper' entry) is serialized differently on each
+    path: the repaired definition then admits every form the paths produce."""
     env = ctx["env"]
-    for name, d in doc.get("definitions", {}).items():
+    env.effective_renames()
+    for name, d in list(doc.get("definitions", {}).items()):
         if name not in env.classes or name not in ctx["eff"] or env.wrapper_form(name) or "properties" not in d:
             continue
-        own, eff = dict(env.renames(name)), dict(ctx["eff"][name])
-        ren = {own.get(f, f): eff.get(f, f) for f in env.resolved(name)["field_names"]}
-        if any(k != v for k, v in ren.items()):
-            d["properties"] = {ren.get(k, k): v for k, v in d["properties"].items()}
+        own = dict(env.renames(name))
+        forms = []
+        for eff in [dict(r) for r in env.rename_cands.get(name, [ctx["eff"][name]])]:
+            ren = {own.get(f, f): eff.get(f, f) for f in env.resolved(name)["field_names"]}
+            v = dict(d)
+            v["properties"] = {ren.get(k, k): x for k, x in d["properties"].items()}
             if isinstance(d.get("required"), list):
-                d["required"] = [ren.get(k, k) for k in d["required"]]
+                v["required"] = [ren.get(k, k) for k in d["required"]]
+            if v not in forms:
+                forms.append(v)
+        if forms and forms != [d]:
+            doc["definitions"][name] = forms[0] if len(forms) == 1 else {"anyOf": forms}
             ctx["changed"] = True
 
 
